@@ -729,3 +729,13 @@ class Labels:
         T(self, locals())
         self.label, self.tag2, self.count = label, tag2, count
         self.size, self.ratio = size, ratio
+
+
+class UnderX:
+    """Underscore parameters AND extra attributes: a dashed spelling of a
+    parameter that is also present is an extra attribute."""
+    def __init__(self, a: int, b_c: int = 0,
+                 _yatiml_extra: Optional[OrderedDict] = None) -> None:
+        T(self, locals())
+        self.a, self.b_c = a, b_c
+        self._yatiml_extra = _yatiml_extra
